@@ -1,4 +1,4 @@
-"""pyvc.driver -- run one property's check: generate VCs from /repo, discharge, replay, report, write evidence.
+"""pvc.driver -- run one property's check: generate VCs from /repo, discharge, replay, report, write evidence.
 
 exit 0 held (possibly with KNOWN-FINDING lines) / 1 violation / 2 undecided / 3 checker error
 """
@@ -7,9 +7,9 @@ import argparse, importlib.util, json, os, subprocess, sys, time, traceback, re,
 
 ROOT = os.path.dirname(os.path.dirname(os.path.abspath(__file__)))
 sys.path.insert(0, ROOT)
-from pyvc.engine import Engine
-from pyvc.core import Unsupported, Obligation
-from pyvc import solve, extract
+from pvc.engine import Engine
+from pvc.core import Unsupported, Obligation
+from pvc import solve, extract
 
 VENV_PY = "/venv/bin/python"
 
@@ -34,7 +34,7 @@ def base_name(name):
     return name
 
 
-from pyvc.result import Result
+from pvc.result import Result
 
 
 def run_check(pid, tier, seed):
